@@ -26,6 +26,23 @@ ALLOWED = {
 }
 
 
+def allowed(prev, ph, st, ctx=None):
+    if ph in ALLOWED[prev]:
+        return True
+    # chips pushing has nothing to do when no pot holds any chip (e.g. the only bet out was the lone survivor's own,
+    # uncalled): the hand then goes from where it stood straight to chips pulling
+    if ph == 'L' and prev in ('C', 'D', 'T', 'S', 'K'):
+        try:
+            empty = sum(p.amount for p in st.pots) == 0
+        except Exception:
+            empty = False
+        if empty:
+            if ctx is not None:
+                ctx.counters['pushing_skipped_with_empty_pot'] += 1
+            return True
+    return False
+
+
 def active_phases(st):
     ph = []
     if st.can_post_ante():
@@ -60,6 +77,10 @@ class PhaseMonitor:
     def _path(self, ctx):
         return list(ctx.path) + ([ctx.cur_event] if ctx.cur_event and ctx.cur_event[0] != '<construct>' else [])
 
+    def on_menu_error(self, st, ms, exc, ctx):
+        from ..explore import query_raised
+        query_raised(self.prop, st, exc, ctx)
+
     def before_apply(self, c, ev, ctx):
         self._obj = c
         ops = c.operations
@@ -83,7 +104,7 @@ class PhaseMonitor:
             self._last = (prev, self._last[1] if n >= 2 else False)
         prev, bets_out = self._last
         ctx.counters['edges_checked'] += 1
-        if ph not in ALLOWED[prev]:
+        if not allowed(prev, ph, st, ctx):
             ctx.violation('phase-order',
                           f'{PHASE_NAMES.get(prev, "begin")} -> {PHASE_NAMES[ph]} is not in the documented diagram '
                           f'(operation {op})', path=self._path(ctx), sig=(self.prop, 'phase-order', str(prev), ph))
@@ -106,7 +127,7 @@ class PhaseMonitor:
             else:
                 ctx.counters['phase_' + ph[0]] += 1
                 last = PHASE_OF_OP.get(type(st.operations[-1]).__name__) if st.operations else None
-                if ph[0] not in ALLOWED[last] and not (last == 'C' and ph[0] == 'C'):
+                if not allowed(last, ph[0], st) and not (last == 'C' and ph[0] == 'C'):
                     ctx.violation('phase-order-state', f'after {PHASE_NAMES.get(last, "begin")} the active phase is {PHASE_NAMES[ph[0]]}',
                                   sig=(self.prop, 'phase-order-state', str(last), ph[0]))
         else:
